@@ -38,7 +38,7 @@ Definition expected_call (d : dconfig) (ctx : json) (r : request) : list json :=
       match direct_call (md_sig m) (md_ctx m) ctx (to_pparams (r_params r)) with
       | None => []
       | Some e => let e' := match md_ctx m with CtxView true => ("<ctx>", Given ctx) :: e | _ => e end in
-                  [JArr [JStr "call"; JStr (md_name m); env_json e']]
+                  [JArr [JStr "call"; JStr (md_log m); env_json e']]
       end
   end.
 Definition binds (d : dconfig) (ctx : json) (r : request) : bool :=
